@@ -101,6 +101,50 @@ def chunks(lst, k):
     return [lst[i:i + k] for i in range(0, len(lst), k)]
 
 
+def operators_leg(ctx):
+    """Every lazy operator, in the forms expr<op>expr, expr<op>value and value<op>expr (reflected), over small operands:
+    the scheduler's result equals Python's (redun documents & and | as lazy `and` / `or`)."""
+    import operator
+
+    import wf.tasks as T
+    from engine import evloop
+
+    OPS = {"==": operator.eq, "!=": operator.ne, "<": operator.lt, "<=": operator.le, ">": operator.gt, ">=": operator.ge, "+": operator.add,
+           "-": operator.sub, "*": operator.mul, "/": operator.truediv, "&": lambda a, b: a and b, "|": lambda a, b: a or b}
+    APPLY = {"==": lambda a, b: a == b, "!=": lambda a, b: a != b, "<": lambda a, b: a < b, "<=": lambda a, b: a <= b, ">": lambda a, b: a > b,
+             ">=": lambda a, b: a >= b, "+": lambda a, b: a + b, "-": lambda a, b: a - b, "*": lambda a, b: a * b, "/": lambda a, b: a / b,
+             "&": lambda a, b: a & b, "|": lambda a, b: a | b}
+    ints = [0, 1, 5, 7]
+    cases, exprs, want = [], [], []
+    for sym in OPS:
+        operands = [(a, b) for a in ints for b in ints] + ([(a, b) for a in (0, 5, [], "") for b in ([], "", None)] if sym in "&|" else [])
+        for a, b in operands:
+            if sym == "/" and b == 0:
+                continue
+            for form in ("expr-expr", "expr-value", "value-expr"):
+                x = T.ident(a) if form != "value-expr" else a
+                y = T.ident(b) if form != "expr-value" else b
+                cases.append({"operator": sym, "form": form, "a": a, "b": b})
+                exprs.append(APPLY[sym](x, y))
+                want.append(OPS[sym](a, b))
+    env = evloop.Env([])
+    try:
+        out = env.run(exprs)
+    finally:
+        env.close()
+    if out[0] != "ok":
+        ctx.violation("operators:run-fails", {"n": len(exprs)}, repr(out)[:300])
+        return len(exprs)
+    seen = set()
+    for c, g, w in zip(cases, out[1], want):
+        if (type(g), g) != (type(w), w):
+            sig = f"operators:wrong-result:{c['operator']}:{c['form']}"
+            if sig not in seen:
+                seen.add(sig)
+                ctx.violation(sig, c, f"{c['a']!r} {c['operator']} {c['b']!r} written as {c['form']}: scheduler gave {g!r}, Python gives {w!r}")
+    return len(exprs)
+
+
 def run(ctx):
     from engine import progs, seams
     from engine.common import check_harness_errors
@@ -125,6 +169,7 @@ def run(ctx):
     res2 = ctx.pmap_nondaemonic(check_real_modes, real_work)
     check_harness_errors(res2)
     ctx.add_results(res2)
+    n_ops = operators_leg(ctx)
     states = set().union(*[r["states"] for r in res])
     execs = sum(r["stats"]["executions"] for r in res)
     outcomes = Counter()
@@ -139,6 +184,7 @@ def run(ctx):
             "programs_with_deviation_exploration": len(progs_dev),
             "deviation_bound": bound,
             "real_executor_runs": sum(r["n"] for r in res2),
+            "operator_expressions": n_ops,
             "real_executor_assignments": len(assigns),
             "distinct_nontrivial": sum(r["nontriv"] for r in res),
             "outcome_kinds": dict(outcomes),
